@@ -5,7 +5,7 @@ import ast
 import z3
 
 from .vals import (Val, NONE, I, B, R, Z, Func, Closure, Bound, Cls, Builtin, TupleV, Partial, ArgPack,
-                   Unsupported, fresh, ref, strv, STRINGS, cls_of, has_attr)
+                   Unsupported, fresh, ref, strv, STRINGS, cls_of, has_attr, list_owner)
 from .state import Event, ArrIV
 from .b_names import KwDict, kw_has, kw_get
 
@@ -28,6 +28,7 @@ def elem_type(ty):
 def new_container(engine, st, kind, ety=None):
     oid = st.alloc(kind)
     st.assume(cls_of(z3.IntVal(oid)) == engine.tag(kind))
+    st.assume(list_owner(z3.IntVal(oid)) == 1)
     st.put("$len", oid, z3.IntVal(0))
     if kind in ("set", "dict"):
         st.put("$mem", oid, z3.K(Val, z3.BoolVal(False)))
